@@ -12,6 +12,7 @@ import (
 	"strings"
 	"sync"
 	"testing"
+	"time"
 
 	clientv3 "go.etcd.io/etcd/client/v3"
 
@@ -25,10 +26,11 @@ import (
 // ---- C13 (cluster-level stream): deploy status observed at every intercepted step of a REAL deployment ----
 
 type obsJ struct {
-	At       string         `json:"at"`
-	Status   map[string]int `json:"status"`   // Store.GetDeployStatus
-	Recorded map[string]int `json:"recorded"` // /deploy/<app>/<entry>/<node>/* keys
-	Markers  map[string]int `json:"markers"`  // sum of /processing/<app>/<entry>/<node>/* values
+	At         string         `json:"at"`
+	Status     map[string]int `json:"status"`      // Store.GetDeployStatus
+	Recorded   map[string]int `json:"recorded"`    // /deploy/<app>/<entry>/<node>/* keys
+	Markers    map[string]int `json:"markers"`     // sum of /processing/<app>/<entry>/<node>/* values
+	MarkerKeys map[string]int `json:"marker_keys"` // number of /processing/<app>/<entry>/<node>/* KEYS (a marker may hold 0)
 }
 
 type statusShape struct {
@@ -38,6 +40,8 @@ type statusShape struct {
 	Strategy  string `json:"strategy"`
 	StartFail []int  `json:"start_fail,omitempty"` // ERU_WORKLOAD_SEQ whose start fails
 	Fault     string `json:"fault,omitempty"`      // ckit address kind|nodeIndex|ord ("" none)
+	PriorOn   int    `json:"prior_on,omitempty"`   // >0: the prior deployment goes to node n<k> only (FILL then plans 0 for it)
+	TimeoutMs int    `json:"timeout_ms,omitempty"` // >0: GlobalTimeout of the cluster; the engine create of seq 0 blocks for 1.3x that long
 	CancelAt  string `json:"cancel_at,omitempty"`  // "<intercepted step>|<k>": the CALLER's context is cancelled right after the k-th such step
 }
 
@@ -72,7 +76,7 @@ type observer struct {
 
 func (o *observer) read(at string) obsJ {
 	ctx := context.Background()
-	ob := obsJ{At: at, Status: map[string]int{}, Recorded: map[string]int{}, Markers: map[string]int{}}
+	ob := obsJ{At: at, Status: map[string]int{}, Recorded: map[string]int{}, Markers: map[string]int{}, MarkerKeys: map[string]int{}}
 	st, err := o.cl.Store.Store.GetDeployStatus(ctx, o.app, o.entry)
 	if err == nil {
 		for n, c := range st {
@@ -92,14 +96,15 @@ func (o *observer) read(at string) obsJ {
 			parts := strings.Split(string(kv.Key), "/")
 			c, _ := strconv.Atoi(string(kv.Value))
 			ob.Markers[o.strip(parts[len(parts)-2])] += c
+			ob.MarkerKeys[o.strip(parts[len(parts)-2])]++
 		}
 	}
 	return ob
 }
 
 func sameObs(a, b obsJ) bool {
-	x, _ := json.Marshal([]any{a.Status, a.Recorded, a.Markers})
-	y, _ := json.Marshal([]any{b.Status, b.Recorded, b.Markers})
+	x, _ := json.Marshal([]any{a.Status, a.Recorded, a.Markers, a.MarkerKeys})
+	y, _ := json.Marshal([]any{b.Status, b.Recorded, b.Markers, b.MarkerKeys})
 	return string(x) == string(y)
 }
 
@@ -159,7 +164,11 @@ func (s *obsStore) GetDeployStatus(ctx context.Context, a, e string) (r map[stri
 }
 
 func runStatus(t *testing.T, sh statusShape, id, tag string) *statusCase {
-	cl := ckit.NewCluster(t, ckit.Options{})
+	copts := ckit.Options{}
+	if sh.TimeoutMs > 0 {
+		copts.GlobalTimeout = time.Duration(sh.TimeoutMs) * time.Millisecond
+	}
+	cl := ckit.NewCluster(t, copts)
 	defer cl.Close()
 	cl.Wipe()
 	hub := newScriptHub(cl)
@@ -176,7 +185,11 @@ func runStatus(t *testing.T, sh statusShape, id, tag string) *statusCase {
 	hub.onStart = func(string) { o.step("engineStart", func() {}) }
 	hub.onCreate = func(string) { o.step("engineCreate", func() {}) }
 	if sh.Prior > 0 {
-		msgs, err := deploy(cl, deployOpts("app", "web", pod, sh.Prior, "AUTO", cpumemReq(0.5, 1<<28, false), nil))
+		var only []string
+		if sh.PriorOn > 0 && sh.PriorOn <= len(nodes) {
+			only = []string{nodes[sh.PriorOn-1] + tag}
+		}
+		msgs, err := deploy(cl, deployOpts("app", "web", pod, sh.Prior, "AUTO", cpumemReq(0.5, 1<<28, false), only))
 		fatalIf(t, err, "prior deploy")
 		for _, m := range msgs {
 			fatalIf(t, m.Error, "prior deploy message")
@@ -188,6 +201,11 @@ func runStatus(t *testing.T, sh statusShape, id, tag string) *statusCase {
 	hub.mu.Lock()
 	for _, s := range sh.StartFail {
 		hub.scripts[s] = ctScript{StartFail: true}
+	}
+	if sh.TimeoutMs > 0 { // the first instance's engine create outlasts the deployment's global timeout
+		sc := hub.scripts[0]
+		sc.CreateDelayMs = sh.TimeoutMs * 13 / 10
+		hub.scripts[0] = sc
 	}
 	hub.mu.Unlock()
 	plan := ckit.Plan{}
@@ -256,6 +274,11 @@ func genStatusShape(r *hx.Rng) statusShape {
 		sh.Fault = fmt.Sprintf("%s|%d|0", hx.Pick(r, "storeAddWorkload", "engineCreate", "storeCreateProcessing", "pluginAlloc", "walLog:create-workload", "walLog:create-processing", "engineInspect"), r.Range(1, sh.Nodes))
 	case 2:
 		sh.StartFail = []int{0, sh.Count - 1}
+	case 5:
+		if sh.Prior > 0 {
+			sh.Strategy, sh.PriorOn = "FILL", r.Range(1, sh.Nodes)
+			sh.Count = r.Range(1, sh.Prior)
+		}
 	case 3, 4:
 		sh.CancelAt = fmt.Sprintf("%s|%d", hx.Pick(r, "storeCreateProcessing", "storeAddWorkload", "engineCreate", "engineStart", "storeGetNode"), r.Intn(2))
 	}
@@ -274,6 +297,11 @@ func genStatus(t *testing.T, out *hx.Out, budget int) {
 		{Nodes: 2, Count: 4, Prior: 0, Strategy: "AUTO", CancelAt: "storeCreateProcessing|1"},
 		{Nodes: 1, Count: 2, Prior: 1, Strategy: "AUTO", CancelAt: "engineCreate|0"},
 		{Nodes: 2, Count: 2, Prior: 0, Strategy: "AUTO", CancelAt: "engineStart|1"},
+		// FILL over a node that is already full: it stays in the plan with 0 and gets a marker holding 0
+		{Nodes: 2, Count: 2, Prior: 2, PriorOn: 1, Strategy: "FILL"},
+		{Nodes: 3, Count: 1, Prior: 1, PriorOn: 2, Strategy: "FILL"},
+		// the deployment runs into its global timeout: the marker cleanup must still work
+		{Nodes: 2, Count: 2, Prior: 1, Strategy: "AUTO", TimeoutMs: 1500},
 	}
 	for len(shapes) < budget {
 		shapes = append(shapes, genStatusShape(r))
